@@ -7,8 +7,11 @@
 
 package getbytes
 
-// lebyte(x, j): byte j (0 = least significant) of the two's-complement / unsigned value x.
-//@ pred lebyte(x int, j int) := ite(j == 0, x % 256, ite(j == 1, (x / 256) % 256, ite(j == 2, (x / 65536) % 256, ite(j == 3, (x / 16777216) % 256,
+// lebyte(x, j): byte j (0 = least significant) of the little-endian two's-complement / unsigned
+// encoding of x.  It is an uninterpreted function in most proofs (they only need to know WHICH value
+// is encoded WHERE); its arithmetic definition is the assumed lemma lebyte_def (used by C14).
+//@ ufunc lebyte(x int, j int) int
+//@ lemma lebyte_def assumed: forall x int, j int :: {lebyte(x, j)} lebyte(x, j) == ite(j == 0, x % 256, ite(j == 1, (x / 256) % 256, ite(j == 2, (x / 65536) % 256, ite(j == 3, (x / 16777216) % 256,
 //@        ite(j == 4, (x / 4294967296) % 256, ite(j == 5, (x / 1099511627776) % 256, ite(j == 6, (x / 281474976710656) % 256, (x / 72057594037927936) % 256)))))))
 // IEEE-754 bit patterns are uninterpreted (floats are idealised as reals elsewhere).
 //@ ufunc f32bits(x float32) int
